@@ -101,7 +101,9 @@ C04(g) == LET chk(c) ==
 \* C12: JSON round trip of every returned expression
 C12(g) == LET one(c, key, r, tag) == IF key \notin DOMAIN c THEN <<>>
                                      ELSE IF RT!RtVerdict(c[key], r.tree) = "" THEN <<>>
-                                     ELSE <<Fail("C12", c, RT!RtVerdict(c[key], r.tree) \o tag)>>
+                                     ELSE <<FailK("C12", c, RT!RtVerdict(c[key], r.tree) \o tag,
+                                                  IF c[key].dec = "ok" /\ KF!KF_C12_NegativeZero(r.tree) THEN "C12-negative-zero"
+                                                  ELSE IF c[key].dec = "ok" /\ KF!KF_C12_BigIntBound(r.tree) THEN "C12-big-int-range-bound" ELSE "none")>>
           IN [i \in DOMAIN g.cases |-> one(g.cases[i], "rt", g.cases[i].res, "") \o one(g.cases[i], "rtdf", g.cases[i].resdf, " (default field)")]
 
 CodecConf(c, key, r) == key \notin DOMAIN c \/ c[key].dec # "ok" \/ c[key].tree2 = EJ!RoundTripped(r.tree, c[key].leaves)
